@@ -234,6 +234,12 @@ theorem prngValue_isSome {hash : ByteArray} {t : Int} {ini : ByteArray} {o : Boo
   | some v => rfl
 
 
+theorem prngValue_ne_none {hash : ByteArray} {t : Int} {ini : ByteArray} {o : Bool} {seed : ByteArray}
+    (ht : t ≠ 0) : prngValue hash t ini o seed ≠ none := by
+  intro h
+  have := prngValue_isSome (hash := hash) (ini := ini) (o := o) (seed := seed) ht
+  rw [h] at this; cases this
+
 /-! ### the queue invariant is preserved -/
 
 theorem inv_of_same {s s' : State} (hq : s'.queue = s.queue) (hh : s'.height = s.height)
